@@ -344,6 +344,38 @@ def as_lambda(P, mod, v):
     return None
 
 
+def check_path_normalised(P, R, rid, why):
+    """patterns never start with `/` and a built URL always does: the matcher is handed the path without *any* enclosing slash, so that what a wildcard captured
+    at the start of a path is what it captures again from the URL built from it"""
+    rs = P.func(f'{RR}:RadiRouter.resolve')
+    g = rs.cfg
+    gets = [c for c in walk_shallow(rs.node) if isinstance(c, ast.Call) and dotted(c.func) == 'self.radidict.get' and c.args]
+    R.require(gets, 'resolve: self.radidict.get(...) not found')
+    pp = rs.params[1]
+    for c in gets:
+        a = c.args[0]
+        if isinstance(a, ast.Name):
+            ds_ = rs.rd.at(g.node_of_stmt(c)[0], a.id)
+            if len(ds_) == 1 and ds_[0].kind == 'assign' and ds_[0].value is not None:
+                a = ds_[0].value
+                inner = [x for x in ast.walk(a) if isinstance(x, ast.Name) and x.id == pp]
+                if inner and not all(d.kind == 'param' for d in rs.rd.at(ds_[0].node, pp)):
+                    a = c.args[0]
+        t = src(a).replace('"', "'")
+        ok = t in (f"{pp}.strip('/')", f"{pp}.lstrip('/').rstrip('/')", f"{pp}.rstrip('/').lstrip('/')")
+        if not ok:
+            sliced = any(isinstance(x, ast.Subscript) and isinstance(x.slice, ast.Slice) for x in ast.walk(a)) or isinstance(c.args[0], ast.Name) and any(
+                isinstance(d.value, ast.Subscript) for d in rs.rd.at(g.node_of_stmt(c)[0], c.args[0].id) if d.value is not None)
+            raw = isinstance(a, ast.Name) and a.id == pp
+            if not (sliced or raw or 'strip' in t):
+                R.undecided(rid, rs, c, 'resolve', f'how `{short(a)}` removes the enclosing slashes of the path has no recogniser')
+                continue
+        R.ob(rid, rs, c, ok, text=f'`{short(c)}`: the matcher gets the path with every enclosing slash removed', detail='' if ok else
+             f'the matcher is handed `{short(a)}`: a path can reach it with a leading `/`, a first wildcard then captures the empty text (or a value that starts with `/`), '
+             f'and the URL built from that assignment - one `/` plus the values - is normalised differently when it is matched again',
+             why=why, key_extra='matcher-path-normalised')
+
+
 def check(P, R):
     R.rule('C19.a', 'built values validated in the matcher\'s context, by consumed length', floor=3)
     R.rule('C19.b', 'converter / formatter pairs', floor=4)
@@ -360,6 +392,8 @@ def check(P, R):
     why_ = 'every parameter assignment a rule produces by matching builds a URL that the rule matches with the same values'
     run_premise(R, _c01, P, {'C01.c'}, 'C19.a', why_)
     run_premise(R, _c11, P, {'C11.b', 'C11.e'}, 'C19.a', why_)
+    _c11.check_named_is_mounted(P, R, 'C19.a')
+    check_path_normalised(P, R, 'C19.a', why_)
     f = P.func(f'{RR}:Route.url')
     g, rd = f.cfg, f.rd
     # shape-independent first: the URL is assembled in an object of this call (a route is shared by all requests, and a build that is rejected half-way
